@@ -74,6 +74,8 @@ type Frame struct {
 	props    []string
 	safety   bool
 	oblSeen  map[string]int
+	countDefs map[string]bool
+	nilMapDone map[int]bool
 }
 
 type outEdge struct {
@@ -1368,7 +1370,18 @@ func (f *Frame) execIndexAddr(ins *ssa.IndexAddr, st *State) Value {
 }
 
 func (f *Frame) mapObj(st *State, m *Term, mt *types.Map) *Term {
-	return tSelect(st.heap(mapHeapKey(mt)), m)
+	h := st.heap(mapHeapKey(mt))
+	// the nil map (reference 0) is empty in every heap (writes to it panic)
+	if f.root.nilMapDone == nil {
+		f.root.nilMapDone = map[int]bool{}
+	}
+	if !f.root.nilMapDone[h.id] {
+		f.root.nilMapDone[h.id] = true
+		nilObj := tSelect(h, tInt(0))
+		b, x := freshBVar("x", mapDom(nilObj).Sort.Idx)
+		f.root.hyps = append(f.root.hyps, mkQuant("forall", []BVar{b}, tNot(tSelect(mapDom(nilObj), x))))
+	}
+	return tSelect(h, m)
 }
 
 func mapDom(o *Term) *Term { return tField(o, 0) }
